@@ -192,7 +192,11 @@ def rule_same_value(ctx: Ctx, rule: str = "C01.3") -> None:
     ctx.require(len(fin) == 1, f"{rule}: expected one definition of final_updates in _process_order")
     v = fin[0].node.value
     okdef = isinstance(v, ast.BinOp) and isinstance(v.op, ast.Add) and isinstance(v.left, ast.Name) and isinstance(v.right, ast.Name)
-    ctx.require(okdef, f"{rule}: final_updates is not '<fill> + <fees>'")
+    if not okdef:
+        ctx.bad(rule, "the delta applied is exactly the fill plus the fees", po, fin[0].stmt,
+                f"the delta handed to the account is '{ast.unparse(v)[:60]}', not a fresh '<fill> + <fees>': whatever else that object holds (e.g. the amounts of an "
+                "earlier fill that was refused) is applied to the account but not recorded on the order", key_text="delta is fill + fees")
+        return
     bu, fe = v.left.id, v.right.id
     fills = [c for c in A.func_calls(po) if (A.call_name(c) or "").endswith(".add_fill")]
     ups = [c for c in A.func_calls(po) if (A.call_name(c) or "") == "self._update_balances"]
